@@ -293,7 +293,19 @@ class ReplayResult:
         self.hist = collections.defaultdict(list)   # pid -> [(t, op, val, res)]
 
 
+def harness(name="lfcache_replay", defs=()):
+    """(re)build on demand and freshen the build directory: vlib's build cache evicts the oldest directories,
+    which during a long run of this check can be ours (other checks build concurrently)"""
+    exe = vlib.build_harness(name, "plain", link_lib=False, extra_defs=defs)
+    try:
+        os.utime(os.path.dirname(exe), None)
+    except OSError:
+        pass
+    return exe
+
+
 def run_replay(exe, text, hist=False, timeout=900):
+    exe = harness()
     rc, lines, err = vlib.run_lines(exe, text, args=["replay"] + (["hist"] if hist else []), timeout=timeout)
     r = ReplayResult()
     done = None
